@@ -109,7 +109,8 @@ func init() {
 	plans["C11"] = simple("half of the cases walk the table of every exported method of Element (16), Scalar (9) and Point (10) crossed with ALL set partitions of {receiver, same-typed pointer arguments} (108 combinations): each block of the partition gets one generated value; the call is run once with one object per block (aliased) and once with one object per position (distinct storage) and results/outputs must agree, returned pointer must be the receiver, and every object not written by contract is compared bit for bit before/after; a quarter drive MultiScalarMult/VarTimeMultiScalarMult with the receiver among the points, repeated points and repeated scalars (result vs model, slice elements and pointees unchanged); a quarter call the six byte-slice setters on a slice embedded in a larger buffer and compare the whole buffer. distinct by (method, partition, values).", 10000)
 	// thorough: the same workload once more under the race detector, which also enables
 	// checkptr (pointer-arithmetic and conversion checks on the library and on the harness)
-	plans["C11"].stages = append(plans["C11"].stages, stage{config: "race", thoroughOnly: true})
+	// (with 8 times the quick case count: the race build is about ten times slower)
+	plans["C11"].stages = append(plans["C11"].stages, stage{config: "race", thoroughOnly: true, env: []string{"VERIF_EXTRA_CONFIG=1"}})
 	plans["C12"] = simple("programs of 30-200 steps over a pool of 6 Points and 4 Scalars; each step is a random exported operation (all arithmetic, all five multiplications incl. multi-scalar with 0-3 terms, Set, both decoders with valid/non-canonical/invalid input, constructors, readers, scalar arithmetic) whose receiver is an existing slot (possibly one of its arguments) or a fresh zero value; after every step: returned pointer, exported coordinates (Z!=0, curve equation, XY=ZT in big integers), affine point and Bytes against the shadow model, limb bound, every other slot bit-for-bit unchanged; every 16 steps all ordered pairs of the pool are compared with Equal against the model; the package-globals digest is compared with the post-warm-up snapshot and drift is recorded (not a verdict: lazily built and pooled state may change legitimately). every step is one evaluation; distinct by (step, raw argument snapshots).", 20000)
 	plans["C12"].custom = digestsAgree
 	plans["C19"] = simple("programs of 20-120 steps of the history engine with mutation steps interleaved (1 in 4): overwriting previously returned Bytes/BytesMontgomery/Scalar.Bytes slices, ExtendedCoordinates elements (via Set and raw), Points returned by NewIdentityPoint/NewGeneratorPoint (Set, Add, raw limbs), NewScalar results, One()/Zero() receivers; each mutation is followed by a probe round with model-known answers ([k]B through ScalarBaseMult, VarTimeDoubleScalarBaseMult and ScalarMult on a fresh generator, constructors, a decode, SqrtRatio(2,1), Bytes of all pool members); every raw write of the harness into a returned value is bracketed by two package-globals digests, which must be identical (exact: nothing but the harness's own stores happens in between), while digest drift across library calls is only recorded; returned slices/elements are checked not to share memory with each other or with the Point; repeated (operation, argument values) observations must give identical bytes; in every second worker process the first use of the precomputed tables happens after mutations. distinct by (step or probe, values).", 10000)
